@@ -401,7 +401,7 @@ Qed.
 
 Lemma want_equal e m : mat_equal e m = true -> pm_exts e = pm_exts m -> Forall2 weq (want_slots e) (want_slots m).
 Proof.
-  unfold mat_equal. rewrite !andb_true_iff. intros (((((((_ & Hp) & _) & Hn) & Ho) & _) & _) & _) Ex.
+  unfold mat_equal. rewrite !andb_true_iff. intros ((((((((_ & Hp) & _) & Hn) & Ho) & _) & _) & _) & _) Ex.
   rewrite !want_slots_eq, Ex. apply Forall2_app; [|apply Forall2_app; [apply weq_refl|apply Forall2_app]].
   - unfold w_pbr. destruct (pm_pbr e) as [x|], (pm_pbr m) as [y|]; cbn [pbr_equal] in Hp; try discriminate; [|constructor].
     rewrite !andb_true_iff in Hp. destruct Hp as ((_ & H1) & H2). apply Forall2_app; apply w_opt_eq; assumption.
@@ -435,11 +435,12 @@ Lemma mat_matches_intro s m g :
   gmt_rough g = match pm_pbr m with Some p => pb_rough p | None => None end ->
   gmt_emissive g = option_map rgb_millis (pm_emissive m) -> gmt_alpha g = pm_alpha m -> gmt_cutoff g = pm_cutoff m ->
   set_eqb (gmt_exts g) (map mx_id (pm_exts m)) = true -> length (gmt_texs g) = length (want_slots m) ->
+  gmt_extras g = pm_extras m ->
   (forall w, In w (want_slots m) -> exists ti extra, slot_get (fst w) (gmt_texs g) = Some (ti, extra) /\
      tex_matches s (fst (snd w)) ti = true /\ extra = snd (snd w)) ->
   mat_matches s m g = true.
 Proof.
-  intros E1 E2 E3 E4 E5 E6 E7 E8 E9 H. unfold mat_matches.
+  intros E1 E2 E3 E4 E5 E6 E7 E8 E9 E10 H. unfold mat_matches.
   rewrite !andb_true_iff. repeat match goal with |- _ /\ _ => split end.
   - rewrite E1. apply String.eqb_refl.
   - rewrite E2. apply listN_eqb_refl.
@@ -451,6 +452,7 @@ Proof.
   - exact E8.
   - rewrite E9. apply Nat.eqb_refl.
   - apply forallb_forall. intros w Hw. destruct (H w Hw) as (ti & extra & -> & Ht & ->). rewrite Ht. apply optN_eqb_refl.
+  - rewrite E10. apply N.eqb_refl.
 Qed.
 
 Lemma pbr_scal a b : pbr_equal a b = true ->
@@ -477,7 +479,7 @@ Lemma mat_matches_built st e m g :
   mat_matches (to_summary st) m g = true.
 Proof.
   intros Q Ex (x0 & Eg) Hs Hn Hi Ht.
-  unfold mat_equal in Q. rewrite !andb_true_iff in Q. destruct Q as (((((((Q1 & Q2) & Q3) & _) & _) & Q6) & Q7) & _).
+  unfold mat_equal in Q. rewrite !andb_true_iff in Q. destruct Q as ((((((((Q1 & Q2) & Q3) & _) & _) & Q6) & Q7) & _) & Q9).
   assert (F : gmt_name g = pm_name e /\
     gmt_color g = match pm_pbr e with
                   | Some p => match pb_color p with Some c => rgba_millis c | None => [1000; 1000; 1000; 1000] end
@@ -485,9 +487,10 @@ Proof.
     gmt_metal g = match pm_pbr e with Some p => pb_metal p | None => None end /\
     gmt_rough g = match pm_pbr e with Some p => pb_rough p | None => None end /\
     gmt_emissive g = option_map rgb_millis (pm_emissive e) /\ gmt_alpha g = pm_alpha e /\ gmt_cutoff g = pm_cutoff e /\
-    gmt_exts g = fold_left (fun u e0 => add_str (mx_id e0) u) (pm_exts e) []).
+    gmt_exts g = fold_left (fun u e0 => add_str (mx_id e0) u) (pm_exts e) [] /\
+    gmt_extras g = pm_extras e).
   { rewrite Eg. repeat split; reflexivity. }
-  destruct F as (F1 & F2 & F3 & F4 & F5 & F6 & F7 & F8).
+  destruct F as (F1 & F2 & F3 & F4 & F5 & F6 & F7 & F8 & F9).
   destruct (pbr_scal _ _ Q2) as (P1 & P2 & P3).
   apply String.eqb_eq in Q1. apply (keyed_opt _ _ keyed_listN) in Q3. rewrite !opt_id in Q3.
   apply (keyed_opt _ _ keyed_string) in Q6. rewrite !opt_id in Q6. apply keyed_optN in Q7.
@@ -501,6 +504,7 @@ Proof.
   - congruence.
   - rewrite F8, Ex, (fold_add_nodup mx_id (pm_exts m) [] Hi). apply set_eqb_refl.
   - symmetry. apply (Forall2_len _ _ _ Hs).
+  - apply N.eqb_eq in Q9. congruence.
   - intros w Hw. destruct (slot_get_F2 _ _ _ Hs Hn w Hw) as (ti & extra & G1 & (_ & G2 & G3 & G4)).
     cbn [fst snd] in G2, G3, G4. exists ti, extra. split; [exact G1|]. split; [|exact G2].
     apply tex_matches_intro; [exact G3|exact G4|apply Ht, Hw].
@@ -612,7 +616,7 @@ Proof.
   { apply (seqN_nth (length (st_mats (run sc)))). unfold seqN. rewrite <- Hv, nth_error_map, Hj. reflexivity. }
   destruct (Forall2_nth_l _ _ _ _ _ Hr Hj) as (g & Hg & (M1 & (M2 & M3))). cbn [fst] in M1, M2, M3.
   assert (Ec : map mx_class (pm_exts e) = map mx_class (pm_exts pm)).
-  { pose proof Q as Q'. unfold mat_equal in Q'. rewrite !andb_true_iff in Q'. destruct Q' as (_ & Q8).
+  { pose proof Q as Q'. unfold mat_equal in Q'. rewrite !andb_true_iff in Q'. destruct Q' as ((_ & Q8) & _).
     apply (keyed_list _ _ keyed_N) in Q8. rewrite !map_id in Q8. exact Q8. }
   assert (Ex : pm_exts e = pm_exts pm).
   { apply (map_inj_on mx_class _ _ Ec). intros a b Ha Hb. apply (Hc e pm); auto. exists mo; auto. }
